@@ -426,7 +426,42 @@ HANDMADE = {
 }
 
 
+# the server's own identity (server.server_name / server.server_port: servername and advertisedport or port of the
+# configuration): what a missing host / a missing port of a link line means
+IDENTITIES = [("gopher.example", 70), ("gopher.example", 7070), ("srv.example.org", 70), ("pub.example.net", 7070),
+              ("10.9.8.7", 105), ("gopher.example", 65535), ("a-b.example", 1), ("remote.example.org", 7071)]
+
+
+def gen_shape_lines(rng, depth):
+    """every field-count shape of a link line (doc/pygopherd.txt: selector, host, port are optional, each on its own):
+    1, 2, 3, 4 fields x empty / given selector x empty / given host x empty / given port"""
+    out = []
+    for sel in (False, True):
+        for host in (None, False, True):            # None: the field is not there at all
+            for port in (None, False, True):
+                if host is None and port is not None:
+                    continue
+                f = [rng.choice(TYPES) + gen_text(rng, 1, 16)]
+                if sel or host is not None:
+                    f.append(gen_selector(rng, depth) if sel else b"")
+                if host is not None:
+                    f.append(rng.choice(HOSTS) if host else b"")
+                if port is not None:
+                    f.append(rng.choice(PORTS) if port else b"")
+                out.append(b"\t".join(f) if len(f) > 1 else f[0] + b"\t")
+    rng.shuffle(out)
+    return out
+
+
 def gen_map(rng, stream, depth, is_file, special=None):
+    if special == "shapes":
+        d = DEPTH_DIRS[depth]
+        dirsel = "/" + d if d else "/"
+        dirsels = [dirsel, dirsel.rstrip("/") + "/x.gophermap"]
+        while True:
+            lines = gen_shape_lines(rng, depth)
+            if all(tame(l, dirsels) for l in lines):
+                return assemble(rng, lines)
     if special is not None:
         return HANDMADE[special]
     n = rng.randrange(4, 13)
@@ -539,7 +574,7 @@ def descriptions(proto, out):
     return (None if its is None else [d for d, _ in its]), items
 
 
-def target_problem(proto, want, target):
+def target_problem(proto, want, target, srv=None):
     """Does the rendered link target denote what the documents say the gophermap line points to?
     want = (type, description, selector, host, port) of the documented reading.  Returns None or a reason.
       * URL: selector (url.txt, pygopherd.txt URL.HTMLURLHANDLER): the URL after "URL:";
@@ -569,7 +604,8 @@ def target_problem(proto, want, target):
         return None if got == sel else "local link must lead to the entry's selector"
     if host is None and port == 0:
         return None                     # "port 0 on this server" denotes nothing that could be followed
-    prefix = "gopher://%s:%d/" % (host if host is not None else SRV, port if port is not None else PORT)
+    srv_name, srv_port = srv or (SRV, PORT)
+    prefix = "gopher://%s:%d/" % (host if host is not None else srv_name, port if port is not None else srv_port)
     if not target.startswith(prefix):
         return "remote link must be a gopher:// URL naming the host and port"
     got = urllib.parse.unquote(target[len(prefix):], errors="surrogateescape")
@@ -900,13 +936,37 @@ def concurrency_leg(chk, rng, thorough, hit, stats):
             else:
                 ls.append(b"0item %d of menu %d\tdoc%d-%d.txt" % (i, k, k, i))
         big["big%d/gophermap" % k] = b"\n".join(ls) + b"\n"
-    big["small/gophermap"] = b"ismall menu\n1up\t/\n"
+    # /small: every field-count shape of a link line; the REAL server object derives its identity from the configuration
+    # (servername; advertisedport, or the port it listens on)
+    big["small/gophermap"] = b"ismall menu\n1up\t/\n" + gen_map(rng, "wf", 0, False, "shapes")
     tree = tree_for(big)
     sels = ["/big0", "/big1", "/big2", "/small", "/big0", "/big1"]
-    live, = impl_run([{"op": "gm_live", "tree": tree, "config": CONFIG, "selectors": sels, "rounds": 6 if thorough else 3}])
+    live_name, live_adv = rng.choice([("gopher.example", "70"), ("live.example.net", "7070"), ("live.example.net", None),
+                                      ("gopher.example", None), ("10.9.8.7", "105")])
+    live, = impl_run([{"op": "gm_live", "tree": tree, "config": CONFIG, "selectors": sels, "rounds": 6 if thorough else 3,
+                       "servername": live_name, "advertisedport": live_adv}])
     if not live["ok"]:
         raise RuntimeError(live["err"] + "\n" + live.get("tb", ""))
     seq = live["res"]["sequential"]
+    live_port = int(live_adv) if live_adv is not None else live["res"]["listen_port"]
+    stats["live_identity_lines"] = 0
+    small_lines = [u(l) for l in split_lines(big["small/gophermap"])]
+    small_items = parse_gopher_menu(u(seq[3]["out"].encode("latin-1"))) or []
+    for ln, it in zip(small_lines, small_items):
+        if not twin_wf(ln):
+            continue
+        wt = twin_item("/small", ln)
+        stats["live_identity_lines"] += 1
+        wantm = (wt[0], wt[1], wt[2], wt[3] if wt[3] is not None else live_name, str(wt[4] if wt[4] is not None else live_port))
+        if wt[0] != "i" and it[:5] != wantm:
+            bad = [f for f, a, b in zip(("type", "description", "selector", "host", "port"), wantm, it[:5]) if a != b]
+            hit("live-menu-spec-mismatch:" + "+".join(bad),
+                {"kind": "live", "what": "the live server's Gopher menu line differs from the documented reading (a missing host / port "
+                                         "means THIS server: servername, advertisedport or the port it listens on)",
+                 "selector": "/small", "line": ln, "documented": list(wantm), "rendered": list(it), "servername": live_name,
+                 "advertisedport": live_adv, "listening_on": live["res"]["listen_port"],
+                 "gophermap_latin1": lat(big["small/gophermap"]), "config": CONFIG})
+            break
     for i, (sel, a) in enumerate(zip(sels, seq)):
         lines = split_lines(big[sel[1:] + "/gophermap"])
         items = parse_gopher_menu(u(a["out"].encode("latin-1")))
@@ -1383,12 +1443,15 @@ def run(tier):
     for stream, cnt in nworld.items():
         for wi in range(cnt):
             maps, meta = {}, []
+            shape_slot = rng.randrange(8) if stream == "wf" and wi else None   # one map with every field-count shape
             for depth, d in enumerate(DEPTH_DIRS):
                 for is_file in (False, True):
                     special = None
                     if stream == "wf" and wi == 0:
                         special = {(0, False): "example", (1, True): "minimal", (1, False): "bucktooth", (2, True): "bucktooth",
                                    (3, True): "blank", (3, False): "empty"}.get((depth, is_file))
+                    if shape_slot == 2 * depth + is_file:
+                        special = "shapes"
                     data = gen_map(rng, stream, depth, is_file, special)
                     path = (d + "/" if d else "") + ("x.gophermap" if is_file else "gophermap")
                     maps[path] = data
@@ -1399,6 +1462,8 @@ def run(tier):
             absmode = None
             if stream != "raising" and wi % 5 in (1, 3):
                 absmode = [(True, "always"), (True, "always"), (True, "unsupported"), (False, "always")][(wi // 5 + wi) % 4]
+            # who this server is: the worlds without abstracts run under every identity in turn
+            srv = IDENTITIES[wi % len(IDENTITIES)] if absmode is None else (SRV, PORT)
             tree = tree_for(maps, gen_sidecars(rng, 0.6 if absmode else 0.15))
             wconf = CONFIG if absmode is None else dict(CONFIG, pygopherd={"abstract_headers": "on" if absmode[0] else "off",
                                                                          "abstract_entries": absmode[1]})
@@ -1411,7 +1476,8 @@ def run(tier):
                         rmeta.append((mi, proto, data, tls))
             worlds.append({"op": "gm_world", "tree": tree, "config": wconf, "maps": [m["selector"] for m in meta],
                            "requests": reqs, "_meta": meta, "_rmeta": rmeta, "_stream": stream, "_zip": None,
-                           "_existing": existing_selectors(tree), "_abs": absmode})
+                           "_existing": existing_selectors(tree), "_abs": absmode, "_srv": srv,
+                           "server_name": srv[0], "server_port": srv[1]})
     # the same kinds of gophermaps INSIDE a ZIP archive, served through ZIP.ZIPHandler (a virtual file system)
     nzip = {"wf": 20, "padded": 8, "raising": 4} if thorough else {"wf": 4, "padded": 2, "raising": 1}
     GEN_PREFIX[0] = ZIPSEL.encode()
@@ -1488,8 +1554,9 @@ def run(tier):
                     wcases.append("(%s, ((%s, ((%s, %s), (%sc%d, (%sex, %sout)))), %s))" % (
                         coq_bool(fixed), coq_str(w["_zip"]), coq_str(m["selector"]), coq_bool(m["is_file"]), P, mi, P, P, obs))
                 else:
-                    wcases.append("(%s, (((%s, %s), (%sc%d, %sex)), %s))" % (coq_bool(fixed), coq_str(m["selector"]),
-                                                                            coq_bool(m["is_file"]), P, mi, P, obs))
+                    wcases.append("((%s, %s), (%s, (((%s, %s), (%sc%d, %sex)), %s)))" % (
+                        coq_str(w["_srv"][0]), coq_z(w["_srv"][1]), coq_bool(fixed), coq_str(m["selector"]),
+                        coq_bool(m["is_file"]), P, mi, P, obs))
                 wkeys.append((fixed, key))
 
         for mi, (m, c) in enumerate(zip(w["_meta"], comps)):
@@ -1498,7 +1565,8 @@ def run(tier):
             lines = [u(l) for l in split_lines(m["data"])]
             stats["lines"] += len(lines)
             replay_base = {"selector": m["selector"], "is_mapfile": m["is_file"], "gophermap_latin1": lat(m["data"]),
-                           "tree": w["tree"], "config": wcfg, "stream": m["stream"], "inside_zip": w["_zip"]}
+                           "tree": w["tree"], "config": wcfg, "stream": m["stream"], "inside_zip": w["_zip"],
+                           "server_name": w.get("server_name", SRV), "server_port": w.get("server_port", PORT)}
             stats["zip_maps"] += bool(w["_zip"])
             if c["handler"] != "BuckGophermapHandler":
                 hit("selection:zip" if w["_zip"] else "selection",
@@ -1570,7 +1638,8 @@ def run(tier):
             ob = out["out"].encode("latin-1")
             replay = {"protocol": proto, "selector": m["selector"], "is_mapfile": m["is_file"], "request_latin1": gen.lat(data),
                       "tls": tls, "gophermap_latin1": lat(m["data"]), "tree": w["tree"], "config": wcfg,
-                      "response_latin1": out["out"][:1500], "exception": out["exc"], "inside_zip": w["_zip"]}
+                      "response_latin1": out["out"][:1500], "exception": out["exc"], "inside_zip": w["_zip"],
+                      "server_name": w.get("server_name", SRV), "server_port": w.get("server_port", PORT)}
             chk.count(("e2e", proto, m["selector"], m["data"]))
             if c["exc"] is not None or c["handler"] != "BuckGophermapHandler":
                 continue
@@ -1634,7 +1703,7 @@ def run(tier):
                         dict(replay, what="rendered description differs from the documented reading", line_index=i,
                              line=ln, documented=want[1], rendered=ds[i]))
                     break
-                why = target_problem(proto, want, rits[i][1])
+                why = target_problem(proto, want, rits[i][1], w.get("_srv"))
                 stats["link_target_checks"] += 1
                 if why is not None:
                     kind = "url" if re.match(r"/?URL:", want[2]) else ("local" if want[3] is None and want[4] is None else "remote")
@@ -1644,8 +1713,9 @@ def run(tier):
                     break
                 if items is not None:
                     it = items[i]
-                    wantm = (want[0], want[1], want[2], want[3] if want[3] is not None else SRV,
-                             str(want[4] if want[4] is not None else PORT))
+                    srv_name, srv_port = w.get("_srv") or (SRV, PORT)
+                    wantm = (want[0], want[1], want[2], want[3] if want[3] is not None else srv_name,
+                             str(want[4] if want[4] is not None else srv_port))
                     if it[:5] != wantm:
                         bad = [f for f, a, b in zip(("type", "description", "selector", "host", "port"), wantm, it[:5]) if a != b]
                         tag = f"menu-spec-mismatch:{'+'.join(bad)}"
@@ -1677,7 +1747,7 @@ def run(tier):
                     sample_e2e = {"kind": "end-to-end", "protocol": proto, "selector": m["selector"],
                                   "response_latin1": out["out"][:200]}
         if wcases:
-            wjobs.append(("\n".join(pre), wcases, wkeys, "chk_zworld" if w["_zip"] else "chk_world"))
+            wjobs.append(("\n".join(pre), wcases, wkeys, "chk_zworld" if w["_zip"] else "chk_world_id"))
         if acases:
             wjobs.append(("\n".join(pre + apre), acases, akeys, "chk_aworld"))
 
@@ -1702,7 +1772,7 @@ def run(tier):
 
     # several worlds per shard file (coqc start-up dominates small shards)
     batched = []
-    for checker in ("chk_world", "chk_zworld", "chk_aworld"):
+    for checker in ("chk_world", "chk_world_id", "chk_zworld", "chk_aworld"):
         group = [j for j in wjobs if j[3] == checker]
         for k in range(0, len(group), 3):
             part = group[k:k + 3]
@@ -1756,6 +1826,13 @@ def run(tier):
                         "streams": "wf = every line well-formed by the documents; padded = white space around fields, "
                                    "indented info, empty description, >4 fields, int() extras (no raise expected); "
                                    "raising = one or two malformed lines (component level only)"}
+    cov["generator"]["server_identity"] = (
+        "the worlds without abstracts run under %d server identities in turn (server_name x server_port %s): what a missing "
+        "host / port means; one map per wf world holds every field-count shape of a link line (1-4 fields x empty / given "
+        "selector, host, port); Gopher0 / Gopher+ menu lines (host and port columns) and the gopher:// link targets of the other "
+        "protocols are compared with the documented reading for THAT server, the model in Coq renders the menu for that server "
+        "(chk_world_id); the live ThreadingTCPServer is configured with a servername / advertisedport drawn per run (or no "
+        "advertisedport: the port it listens on)" % (len(IDENTITIES), sorted({p_ for _, p_ in IDENTITIES})))
     cov["generator"]["large_maps"] = (
         "file sizes exactly at, one byte either side of, and beyond %s bytes (a line ending exactly on the boundary with more "
         "lines behind it; lines straddling it; header + stanza * n + tail repetitions whose compact description the model "
@@ -1903,7 +1980,7 @@ def replay(path):
     if rp.get("request_latin1") is not None:
         reqs.append({"data": rp["request_latin1"], "tls": rp.get("tls", False)})
     res, = impl_run([{"op": "gm_world", "tree": rp.get("tree", []), "config": rp.get("config"), "maps": [sel] if sel else [],
-                      "requests": reqs}])
+                      "requests": reqs, "server_name": rp.get("server_name"), "server_port": rp.get("server_port", PORT)}])
     if not res["ok"]:
         print(res["err"])
         return 2
